@@ -112,6 +112,24 @@ example : GoodPick (fun rem m => rem.take m) := by
 example : sampleSplit (fun rem m => (rem.zipIdx.filter (fun p => p.2 % 2 == 1)).map (·.1) |>.take m)
     (List.range 11) 3 = [[1, 3, 5], [2, 6, 8], [0, 4, 7, 9, 10]] := by decide
 
+/-- **The hypothesis `rows.Nodup` of `split_partition` cannot be dropped (round 4).**  `_sample_split_` removes the
+    rows it has drawn BY LABEL (`index.difference`): on a frame whose labels repeat -- two extracts stacked with
+    `pd.concat`, labels `0, 1, 0, 2` -- the first draw of `[0, 1]` takes the other row labelled `0` out of the
+    remainder as well, and the parts no longer cover the rows.  This is why the estimators must hand over a frame
+    with fresh labels (`check_input_data` ends in `reset_index()`); gate K measures the hypothesis on every call of
+    `_sample_split_` the implementation makes (`labels handed to _sample_split_ are pairwise distinct`), and gate D
+    feeds frames with repeated labels and with exact duplicates of records. -/
+theorem split_labels_must_be_distinct :
+    ∃ (pick : List Nat → Nat → List Nat) (rows : List Nat) (k : Nat),
+      GoodPick pick ∧ 1 ≤ k ∧ ¬ (sampleSplit pick rows k).flatten.Perm rows := by
+  refine ⟨fun rem m => rem.take m, [0, 1, 0, 2], 2, ?_, by omega, ?_⟩
+  · intro rem m hr hm
+    exact ⟨by simp [hm], hr.sublist (List.take_sublist m rem), fun x hx => List.mem_of_mem_take hx⟩
+  · intro h
+    have := h.length_eq
+    revert this
+    decide
+
 /-- **Pairing never selects the model trained on the split being predicted.**
     `models[i - 1]` for `0 ≤ i < k`, `k ≥ 2` (all four estimators, treatment model; outcome model of the
     single cross-fit estimators). -/
